@@ -40,12 +40,12 @@ ACCEPTED = {
 }
 
 
-def rule_g6(ctx, pl: Pipeline) -> None:
+def rule_g6(ctx, pl: Pipeline, rule_id: str = "C04-G6") -> None:
     """The input validator only labels rows whose solved flag is false: the flag
     has to be reset for every row, unconditionally, before the validator runs."""
     from ..cfg import CFG
 
-    ctx.rule("C04-G6", "before the input check the solved column is set to the constant False for every row on every path", 1)
+    ctx.rule(rule_id, "before the input check the solved column is set to the constant False for every row on every path", 1)
     st0 = pl.stages[0]
     solved = pl.solved_col
     f = st0.callee
@@ -76,10 +76,12 @@ def rule_g6(ctx, pl: Pipeline) -> None:
                 guarded = bool(cfg.guards(nid)) if nid is not None else True
         ok = const_false and plain and not guarded and every
         ok_any = ok_any or ok
-        ctx.instance("C04-G6", "%s: %s (constant False: %s, plain assignment: %s, unguarded: %s, on every path: %s)" % (func.name, unparse(ks.node)[:60], const_false, plain, not guarded, every), ks.where(), ok=ok)
+        ctx.instance(rule_id, "%s: %s (constant False: %s, plain assignment: %s, unguarded: %s, on every path: %s)" % (func.name, unparse(ks.node)[:60], const_false, plain, not guarded, every), ks.where(), ok=ok)
     if not ok_any:
         where = cands[0][0].where() if cands else st0.where()
-        ctx.finding("C04-G6", "preprocess:solved-reset", where, "the solved column is not reset to False for every row before the input check (%s): a row that carries solved=True from an earlier run skips the input check and keeps its old label" % ("; ".join(unparse(k.node)[:50] for k, _ in cands) or "no store found"))
+        if not cands:
+            ctx.instance(rule_id, "no plain store of False into the solved column before the input check", where, ok=False)
+        ctx.finding(rule_id, "preprocess:solved-reset", where, "the solved column is not reset to False for every row before the input check (%s): a row that carries solved=True from an earlier run skips the input check and keeps its old label" % ("; ".join(unparse(k.node)[:50] for k, _ in cands) or "no store found"))
 
 
 def check(ctx) -> None:
